@@ -34,12 +34,15 @@ from ..translator import py2lean
 
 # the pins of `PersLandscapeExact.__init__` (conversion of the selected diagram to float, signature, bindings) live in the
 # generated file of the landscape arithmetic; building it under C03 makes C03 report an edit of that constructor
-PROP_FILES = ["PersimVerif/Props/C03.lean", py2lean.prop_file("plarith")]
+# Generated/SrcSweep.lean (with its bridge files) is `compute_landscape` itself, translated statement by statement and proved equal
+# to the model `Landscape.sweep` that the theorems of Props/C03.lean are about (`src_compute_landscape_eq_model`)
+PROP_FILES = ["PersimVerif/Props/C03.lean", py2lean.prop_file("plarith")] + py2lean.prop_files("sweep")
 
 
 def pre_build(ctx):
-    """source translator (DESIGN.md 3.2): regenerate Generated/SrcPLArith.lean (holds the constructor pins) from PERSIM_ROOT"""
-    py2lean.pre_build(ctx, ("plarith",))
+    """source translator (DESIGN.md 3.2): regenerate Generated/SrcPLArith.lean (holds the constructor pins) and
+    Generated/SrcSweep.lean (the sweep) from PERSIM_ROOT"""
+    py2lean.pre_build(ctx, ("plarith", "sweep"))
 
 
 LEVEL = "translation_validation"
@@ -69,7 +72,8 @@ ASSUMPTIONS = [
 ]
 TRUSTED = ["the guarded trace persim.landscapes.exact._VERIF_TRACE is compared with the model's firing count as correspondence only; it "
            "attributes nothing (the known finding is recognised by the output being the model's)",
-           "the compiled driver executable is trusted as compiled by Lean's compiler, not checked by the kernel"]
+           "the compiled driver executable is trusted as compiled by Lean's compiler, not checked by the kernel",
+           py2lean.trusted_note("sweep")]
 # theorems that carry a clause of the property (helper lemmas, concrete instances such as the shortcut counterexample, and
 # model glue about rejected / out-of-domain inputs are excluded)
 CORE_THEOREMS = ["certifyTol_sound", "certify_sound", "certify_beyond_last", "certify_ordered_vanishing", "hom_deg_selects",
@@ -387,16 +391,28 @@ def run_code(dgms, hom_deg, dtype=float):
         raise common.HarnessError("persim.landscapes.exact._VERIF_TRACE is None: the PERSIM_VERIF hook is off")
     del trace[:]
     old = signal.signal(signal.SIGALRM, _alarm)
-    signal.setitimer(signal.ITIMER_REAL, HANG_S)
+    # the alarm REPEATS every quarter second after HANG_S: an exception raised by a signal handler is lost when it lands in a
+    # place where Python ignores exceptions (the clean-up of the generator of `all(... for _ in A)`), and a one-shot alarm
+    # lost there would let a non-terminating sweep grow its lists for ever
+    signal.setitimer(signal.ITIMER_REAL, HANG_S, 0.25)
+    hung = False
     try:
-        with np.errstate(all="ignore"):
-            st, v, _ = call(mod.PersLandscapeExact, dgms=[arr(D, dtype) for D in dgms], hom_deg=hom_deg)
-    except Hang:
+        try:
+            try:
+                with np.errstate(all="ignore"):
+                    st, v, _ = call(mod.PersLandscapeExact, dgms=[arr(D, dtype) for D in dgms], hom_deg=hom_deg)
+            finally:
+                signal.setitimer(signal.ITIMER_REAL, 0)
+        except Hang:
+            hung = True
+    except Hang:                                  # a second alarm while the first was unwinding
+        signal.setitimer(signal.ITIMER_REAL, 0)
+        hung = True
+    finally:
+        signal.signal(signal.SIGALRM, old)
+    if hung:
         del trace[:]
         return "hang", "no result within %.0f s" % HANG_S, 0
-    finally:
-        signal.setitimer(signal.ITIMER_REAL, 0)
-        signal.signal(signal.SIGALRM, old)
     fired = sum(1 for x in trace if x[0] == "repeated-bar-shortcut")
     del trace[:]
     if st == "err":
@@ -840,7 +856,10 @@ MANIFEST = {
             "executable (compiled by Lean's compiler, not checked by the kernel), np.interp as linear interpolation. A diagram with an "
             "infinite death in a row that is not the last is outside the property ('finite diagrams'): code (non-finite critical pairs) "
             "and model (NonFinite) are only checked to agree on that. Exact on lattice/half/dyadic input; on decimal input the code's rounded midpoints are certified within 1e-9*largest |coordinate| "
-            "(`certifyTol_sound`). The level stays translation validation because the real code is tied to the model only by the sampled "
-            "correspondence and because the property as stated is false on the unchanged tree (known finding).",
+            "(`certifyTol_sound`). The level stays translation validation because the property as stated is false on the unchanged tree "
+            "(known finding) and because what surrounds the sweep -- float rounding, the constructor's selection and conversion of the "
+            "diagram, np.interp -- is tied to the model by the sampled correspondence only; the sweep itself (`compute_landscape`) is tied "
+            "by translation (next paragraph).",
     "technique": "Lean-verified certificate checker applied to the real code's output + proved model of the sweep + differential correspondence",
 }
+MANIFEST["note"] += " " + py2lean.manifest_note("sweep")
